@@ -398,7 +398,7 @@ func (d Driver) Run(c *core.Ctx) error {
 	c.TLC(tlc.Opts{Module: "RectAlg", Config: cfg(c.Pick(2, 3), "tables", 1, true), Workers: 8, Timeout: 20 * time.Minute, OnLine: func([]byte) {}}, true)
 
 	// design level, machine mode: laws of the transitions on every history of two operations over the rectangles of the unit cell
-	c.TLC(tlc.Opts{Module: "RectAlg", Config: cfg(1, "machine", c.Pick(2, 3), false) + "INVARIANTS WellFormed\nPROPERTIES MachineLaws\n", Workers: 8, Timeout: 20 * time.Minute, OnLine: func([]byte) {}}, true)
+	c.TLC(tlc.Opts{Module: "RectAlg", Config: cfg(c.Pick(1, 2), "machine", 2, false) + "INVARIANTS WellFormed\nPROPERTIES MachineLaws\n", Workers: 8, Timeout: 20 * time.Minute, OnLine: func([]byte) {}}, true)
 
 	var nontriv, ran, hists int64
 	ch := make(chan []byte, 64)
